@@ -21,6 +21,7 @@ import (
 	"errors"
 	"fmt"
 	"io"
+	"mime"
 
 	"github.com/drone/envsubst/v2"
 	"gopkg.in/yaml.v3"
@@ -33,6 +34,12 @@ import (
 var ErrEmptyRuleSet = errors.New("empty rule set")
 
 func ParseRules(contentType string, reader io.Reader, envUsageEnabled bool) (*RuleSet, error) {
+	// the media type might be given with parameters (like e.g. "application/yaml; charset=utf-8")
+	// or in another case. Neither changes the format
+	if mediaType, _, err := mime.ParseMediaType(contentType); err == nil {
+		contentType = mediaType
+	}
+
 	switch contentType {
 	case "application/json":
 		fallthrough
